@@ -233,3 +233,20 @@ Theorem C16_every_tested_pair_is_resolved :
      (negb (Bool.eqb (e_is_subject (getE (sq_st s) se1)) (e_is_subject (getE (sq_st s) se2))) = true /\
       qeqp pax pay pbx pby /\ qeqp nax nay nbx nby)).
 Proof. exact pi_resolves. Qed.
+
+(** last sentence of C16 for the kernel, in full (exact instance): for EVERY pair of
+    non-degenerate segments the answer does not depend on the order in which the two are given —
+    [LNone] both ways or neither, equal points, and for a common part the same two end points
+    (possibly listed in the other order) *)
+From GB Require Import IntersectSymCol.
+Theorem C16_kernel_order_independent :
+  forall (a1x a1y a2x a2y b1x b1y b2x b2y : Q),
+  ~ (a2x == a1x /\ a2y == a1y) -> ~ (b2x == b1x /\ b2y == b1y) ->
+  let A1 := fpt a1x a1y in let A2 := fpt a2x a2y in let B1 := fpt b1x b1y in let B2 := fpt b2x b2y in
+  (intersection A1 A2 B1 B2 = LNone <-> intersection B1 B2 A1 A2 = LNone) /\
+  (forall x y, intersection A1 A2 B1 B2 = LPoint (fpt x y) ->
+     exists x' y', intersection B1 B2 A1 A2 = LPoint (fpt x' y') /\ x' == x /\ y' == y) /\
+  (forall px py qx qy, intersection A1 A2 B1 B2 = LOverlap (fpt px py) (fpt qx qy) ->
+     exists px' py' qx' qy', intersection B1 B2 A1 A2 = LOverlap (fpt px' py') (fpt qx' qy') /\
+       ((px' == px /\ py' == py /\ qx' == qx /\ qy' == qy) \/ (px' == qx /\ py' == qy /\ qx' == px /\ qy' == py))).
+Proof. exact intersection_order_independent. Qed.
